@@ -42,8 +42,14 @@ def run(chk, repo):
                     f"record {i} is {name}", f"record {i} is {got}, the format's order has {name} there",
                     key=f"order:{i}:{name}")
     # T4 adapters
-    for key in sorted(adapters_used(leaves)):
-        check_adapter(chk, "C04-T4", repo, L.ev, key)
+    def t4(chk, repo, L, used):
+        for key in sorted(used):
+            check_adapter(chk, "C04-T4", repo, L.ev, key)
+    _t4_pending = (t4, adapters_used(leaves))
+    from .adapter_eval import adapter_values
+    chk.rule("C04-T7", "every adapter used in these layouts decodes representative raw values as specified (evaluation of _decode)", 5)
+    chk.attempt(adapter_values, chk, repo, L, "C04-T7", ("leader",))
+    chk.attempt(_t4_pending[0], chk, repo, L, _t4_pending[1], covered_by="adapter_values")
     from ..shapes_rules import link_tables
     link_tables(chk, repo, L, "C04")
     from .common_rules import parse_and_transform, to_dict_contract
